@@ -782,6 +782,11 @@ func TestVerifC03Time(t *testing.T) {
 		scs = append(scs, sc)
 	}
 	for _, sc := range plPlacementScenarios(false) {
+		if strings.Contains(sc.Name, "same-name-two-dbs") {
+			// (the yield points are keyed by collection NAME: with two collections of one name the oracle cannot tell which
+			// pack was computed first, i.e. cannot attribute a pair to the recorded overtake finding)
+			continue
+		}
 		sc.HeavyBound = 1
 		scs = append(scs, sc)
 	}
